@@ -16,7 +16,7 @@ def run_h(history):
 
 def mk_cfg(ctx):
     return pm.Cfg(seed=ctx.seed, slots=("A",), max_objs=3 if ctx.thorough else 2, actions=(), clock=True,
-                  queries=(), numeric=True, use_iter=True, use_exit=ctx.thorough)
+                  queries=(), numeric=True, use_iter=True, use_exit=ctx.thorough, oneshot=True)
 
 
 def run(ctx):
